@@ -84,7 +84,7 @@ fn frame_graph(out: &mut Out) {
     out.parts.push(("graph:Ps2Decoder".into(), json!({"real_states": g.states.len(), "transitions": g.edges, "panicking_edges": panics})));
 
     chunk("ps2-all-u16-words");
-    let d = Ps2Decoder::new();
+    let mut d = Ps2Decoder::new();
     let mut panics = 0;
     for w in 0..=u16::MAX {
         if catch_unwind(AssertUnwindSafe(|| d.add_word(w))).is_err() {
@@ -179,6 +179,7 @@ fn act_op(a: &BitAct) -> Op {
     match a {
         BitAct::Bit(b) => Op::Bit(*b),
         BitAct::Clear => Op::Clear,
+        BitAct::Word(w) => Op::Word(*w),
     }
 }
 
